@@ -85,6 +85,10 @@ def run_checks(src, sid, rec, checks):
     st = subprocess.run(["git", "-C", REPO, "status", "--porcelain", "--untracked-files=no"], capture_output=True, text=True).stdout.strip()
     assert st == "", "/repo has local modifications: " + st
     rc, out = sh(["git", "-C", REPO, "apply", os.path.join(src, "patch.diff")])
+    # evidence files are rewritten by every run: keep the ones of the clean tree
+    evbak = "/tmp/seval/evidence.bak"
+    shutil.rmtree(evbak, ignore_errors=True)
+    shutil.copytree(os.path.join(VERIF, "evidence"), evbak)
     try:
         if rc == 0:
             for c in checks:
@@ -96,6 +100,9 @@ def run_checks(src, sid, rec, checks):
         sh(["git", "-C", REPO, "checkout", "--", "."])
         # the Gen files were regenerated from the patched tree: bring them back to the clean tree
         sh(["python3", os.path.join(VERIF, "tools", "gen_facts.py")], cwd=VERIF)
+        for f in os.listdir(evbak):
+            shutil.copy(os.path.join(evbak, f), os.path.join(VERIF, "evidence", f))
+        shutil.rmtree(evbak, ignore_errors=True)
     rec["checks_run"] = results
     dst = os.path.join(VERIF, "seeded", sid)
     os.makedirs(dst, exist_ok=True)
